@@ -57,6 +57,7 @@ B2 == B1 \cup {Bin(op, l, r) : op \in CmpOpsE, l \in I1, r \in I1} \cup {Bin(op,
 I3 == I2 \cup {Bin(op, l, r) : op \in {"+", "-", "*", "**", "//"}, l \in I2, r \in I2} \cup {Un("-", e) : e \in I2}
          \cup {Tern(c, l, r) : c \in B2, l \in I1, r \in I1} \cup {Tern(T, l, r) : l \in I2, r \in I1} \cup {Tern(T, l, r) : l \in I1, r \in I2}
 B3 == B2 \cup {Bin(op, l, r) : op \in {"<", "=="}, l \in I2, r \in I2} \cup {Bin(op, l, r) : op \in {"and", "or"}, l \in B2, r \in B2} \cup {Un("not", e) : e \in B2}
+         \cup {Bin("==", l, r) : l \in B2, r \in B2}          \* equality of truth values: `not`, `and`, `or` and comparisons as operands of a comparison
 E2E == {[ty |-> "Int", e |-> e] : e \in I3} \cup {[ty |-> "Bool", e |-> e] : e \in B3}
 
 Cases == CASE Family = "depth3" -> {[ty |-> "", e |-> e] : e \in D3} [] Family = "pairs" -> {[ty |-> "", e |-> e] : e \in Pairs} [] Family = "e2e" -> E2E
